@@ -26,8 +26,35 @@ def run_histories(n_random=300, seed=0, histories=(), max_failures=1, timeout=90
         shutil.rmtree(d, ignore_errors=True)
 
 
+# which properties a failure reported by replay_src/writer_history.py speaks about (the driver checks all of them in one pass)
+ASPECTS = [
+    ("returned", ("C19",)), ("counters", ("C19",)), ("get_last_file_written", ("C19",)),
+    ("before the cursor accepted", ("C05",)), ("malformed", ("C05",)), ("rejected rf_write", ("C05",)), ("changed the directory", ("C05",)),
+    ("valid rf_write", ("C05", "C01", "C19")),
+    ("tmp file left", ("C02", "C09")),
+    ("name is not a multiple", ("C04",)), ("exact time belongs to file", ("C04", "C01")),
+    ("stored twice", ("C01", "C04", "C06")),
+    ("holds", ("C01", "C07", "C06")), ("never written", ("C01", "C07")), ("are not in any file", ("C01", "C19", "C07")),
+]
+
+
+def concerns(f, pid):
+    what = f.get("what", "")
+    for key, pids in ASPECTS:
+        if key in what:
+            return pid in pids
+    return True      # per-file index problems, exceptions, a dead writer process: every property of the write path
+
+
+def relevant(r, pid=None):
+    pid = pid or harness.CURRENT_PID
+    r = dict(r)
+    r["failures"] = [f for f in r["failures"] if pid is None or concerns(f, pid)]
+    return r
+
+
 def replay(o, model):
-    r = run_histories(n_random=400, seed=7)
+    r = relevant(run_histories(n_random=400, seed=7, max_failures=6))
     if r["failures"]:
         f = r["failures"][0]
         return True, "write history on the real library: %s\n  history: %s" % (f["what"], f.get("history", "")), f
